@@ -68,7 +68,7 @@ func program(r *mc.Run, interleaved bool, calls int) func(x *mc.X) {
 						break
 					}
 					var sock *vnet.UDPConn
-					for _, sk := range w.Net.Socks {
+					for _, sk := range w.Net.Open() {
 						if sk != nw.SrvSock && !sk.Closed() && sk.Reading.Load() {
 							sock = sk
 						}
